@@ -2,7 +2,7 @@
    Statements only; proofs in Proofs/Citations*.v; the vocabulary of the statements (dedup_ci,
    threshold_hits, missing_of, dangling_of, parents_follow_children ...) is Spec/Citations.v. *)
 From Pybtex Require Import Base.Prelude Base.PyChar Base.PyStr Model.Citations Spec.Citations
-  Proofs.CitationsBase Proofs.Citations Proofs.CitationsFiltered.
+  Proofs.CitationsBase Proofs.Citations Proofs.CitationsFiltered Proofs.CitationsMore Proofs.CitationsReports.
 
 Definition K (s : string) : key := s2l s.
 
@@ -27,6 +27,14 @@ Theorem crossrefs_sound : forall E cs m k, In k (crossrefs E cs m) ->
   ed_mem k E = true /\ existsb (keyb k) cs = false /\ exists c, In c cs /\ parent_of E c = Some k.
 Proof. exact crossrefs_sound_lemma. Qed.
 Print Assumptions crossrefs_sound.
+
+(* ... and exactly those: the additions are precisely the stored keys of the entries that are not cited
+   (up to case) and that at least max(min_crossrefs, 1) of the citations cross-reference *)
+Theorem crossrefs_exact : forall E cs m k,
+  In k (crossrefs E cs m) <->
+  (exists cr, ed_get k E = Some (k, cr)) /\ existsb (keyb k) cs = false /\ Z.to_nat (Z.max m 1) <= refs E k cs.
+Proof. exact crossrefs_exact_lemma. Qed.
+Print Assumptions crossrefs_exact.
 
 (* add_extra_citations = the explicit citations followed by the additions computed from them *)
 Theorem resolve_partition : forall E cites m,
@@ -74,6 +82,19 @@ Theorem citation_spelling_wins : forall db cites k cr,
 Proof. exact citation_spelling_lemma. Qed.
 Print Assumptions citation_spelling_wins.
 
+(* the keys the BibTeX engine emits (the final self.citations): a key that is cited is emitted under the
+   spelling of the citation list (consistently spelled citations, as the property's quantifier says) *)
+Theorem emitted_spelling : forall db cites m k c,
+  consistent cites -> In k (fst (command_read_raw db cites m)) -> In c cites -> keyb c k = true -> k = c.
+Proof. exact emitted_spelling_lemma. Qed.
+Print Assumptions emitted_spelling.
+
+(* both engines' front ends select the same entries in the same order (up to letter case) *)
+Theorem engines_agree : forall db cites m,
+  map lower (fst (py_engine_raw db cites m)) = map lower (fst (command_read_raw db cites m)).
+Proof. exact engines_agree_lemma. Qed.
+Print Assumptions engines_agree.
+
 (* F13 (known finding): reading filtered by the citations is NOT always the same as reading the
    whole file and selecting -- a parent placed before its only cited child is skipped (it is not yet
    wanted when the parser meets it), is then not added, and a 'bad cross-reference' is reported although
@@ -96,6 +117,16 @@ Theorem filtered_equals_unfiltered : forall db cites m, parents_follow_children 
   map lower (fst (command_read_raw db cites m)) = map lower (fst (select_unfiltered db cites m)).
 Proof. exact filtered_unfiltered. Qed.
 Print Assumptions filtered_equals_unfiltered.
+(* under the same rule the filtered reading also REPORTS exactly what the whole reading reports: the same
+   missing keys and the same dangling cross-references, in the same order (up to letter case) -- so the
+   spurious 'bad cross-reference' of F13 cannot occur *)
+Theorem filtered_reports_equal : forall db cites m, parents_follow_children db cites ->
+  map lower (missing_reports (snd (command_read_raw db cites m))) =
+  map lower (missing_reports (snd (select_unfiltered db cites m))) /\
+  map lowpair (badxref_reports (snd (command_read_raw db cites m))) =
+  map lowpair (badxref_reports (snd (select_unfiltered db cites m))).
+Proof. exact filtered_reports. Qed.
+Print Assumptions filtered_reports_equal.
 (* the hypothesis is met by a non-trivial database (child before parent, threshold 2, mixed case) and is
    exactly what the F13 witness violates *)
 Example pfc_example :
@@ -129,6 +160,13 @@ Example crossrefs_example :
   crossrefs db5 [K "c1"; K "c2"; K "P"] 1 = [] /\
   add_extra db5 [K "*"; K "x"] 3 = ([K "c1"; K "c2"; K "p"; K "c3"; K "x"], [RBadXref (K "c3") (K "q")]).
 Proof. vm_compute. auto 6. Qed.
+Example consistent_example : consistent [K "c1"; K "P"; K "c1"; K "*"] /\ ~ consistent [K "c1"; K "C1"].
+Proof.
+  split.
+  - intros a b Ha Hb. cbn in Ha, Hb.
+    repeat (destruct Ha as [<-|Ha]; [repeat (destruct Hb as [<-|Hb]; [vm_compute; try reflexivity; discriminate|]); contradiction|]); contradiction.
+  - intros H. specialize (H (K "c1") (K "C1")). cbn in H. discriminate H; auto.
+Qed.
 Example command_read_example :
   command_read_raw [(K "p", None); (K "C1", Some (K "P")); (K "c2", Some (K "zz"))] [K "c1"; K "nope"; K "c2"; K "P"] 1
   = ([K "c1"; K "c2"; K "P"], [RBadXref (K "c2") (K "zz"); RMissing (K "nope")]) /\
